@@ -250,6 +250,13 @@ def check_vector(v):
                     bad.append({"what": "str_to_float is further than a few ulp from the decimal value", "tags": {"op": "str_to_float", "kind": "inaccurate"},
                                 "vector": v, "expected": float(ex), "observed": g, "case": {"text": t, "ulps": float(min(u, 10 ** 6))}})
                     break
+            # the same encoded text parsed a second time gives the same doubles, and the argument still holds its text
+            held = bnp.as_encoded_array(texts)
+            again = outcome(lambda: [[float(x) for x in str_to_float(held).tolist()] for _ in range(2)] + [held.tolist()])
+            n += 1
+            if again != ("ok", [o[1], o[1], texts]):
+                bad.append({"what": "str_to_float changed its argument: parsing the same encoded text again differs", "tags": {"op": "str_to_float", "kind": "twice"},
+                            "vector": v, "expected": [o[1], texts], "observed": again, "case": {"texts": texts}})
             # single-row calls must give the same doubles as the batch (row independence on the real code)
             singles = outcome(lambda: [float(str_to_float(bnp.as_encoded_array([t]))[0]) for t in texts])
             n += 1
